@@ -16,27 +16,15 @@ open FVal
 variable {K : Type} [Field K] [LinearOrder K] [IsStrictOrderedRing K] [FloorRing K]
 variable {Bo : BoostOps K} {P : PointFns K}
 
-/-- `−2³¹ ≤ q < 2³¹`: where `static_cast<int>(std::floor(q))` is the mathematical floor -/
-def inIntRange (q : K) : Prop := -(2147483648 : K) ≤ q ∧ q < 2147483648
-
-/-- the quotient interval computed for numerator `U` has finite bounds in `int` range -/
-def QuotOK (Bo : BoostOps K) (U : Bnd K) (B : IVal K) : Prop :=
-  ∃ ql qh : K, Bo.div U (Bo.abs B.b) = ⟨fin ql, fin qh⟩ ∧ inIntRange ql ∧ inIntRange qh
-
-/-- The hypotheses missing from `Interval::mod`: operands not flagged (the flags are dropped), all
-    four bounds finite (`mod(±∞, b)` and `mod(a, ±∞)` are NaN but only `b ∋ 0` is flagged), and the
-    quotient bounds within `int` range (`static_cast<int>` overflows otherwise). -/
-def ModSafe (Bo : BoostOps K) (A B : IVal K) : Prop :=
-  A.mn = false ∧ B.mn = false ∧
-  A.lo.isFinite = true ∧ A.hi.isFinite = true ∧ B.lo.isFinite = true ∧ B.hi.isFinite = true ∧
-  (Ivl.hasZero B = false → QuotOK Bo A.b B ∧ QuotOK Bo (Bo.mulNeg1 A.b) B)
-
 /-- contracts of the remaining primitives used by `mod`, and the meaning of `floor` -/
 structure ModSound (Bo : BoostOps K) (P : PointFns K) : Prop where
   mulNeg1 : ∀ X a, inBb X a → inBb (Bo.mulNeg1 X) (FVal.neg a)
-  mulInt : ∀ X b (k : Int), inBb X b → FVal.mul b (fin (k : K)) ≠ nan →
-    inBb (Bo.mulInt X k) (FVal.mul b (fin (k : K)))
-  floorInt : ∀ q : K, inIntRange q → Bo.floorInt (fin q) = ⌊q⌋
+  mulF : ∀ X b (k : K), inBb X b → FVal.mul b (fin k) ≠ nan →
+    inBb (Bo.mulF X (fin k)) (FVal.mul b (fin k))
+  /-- `std::floor` is exact on finite floats … -/
+  floorF_fin : ∀ q : K, Bo.floorF (fin q) = fin ((⌊q⌋ : Int) : K)
+  /-- … and maps non-finite values to non-finite values -/
+  floorF_finite : ∀ v : FVal K, (Bo.floorF v).isFinite = true → v.isFinite = true
   floor : ∀ x : K, P.floor x = ⌊x⌋
   ofInt : ∀ k : Int, P.ofInt k = (k : K)
 
@@ -72,75 +60,143 @@ theorem pmod_fin (hM : ModSound Bo P) {x y : K} (hy : y ≠ 0) :
     simp only [n1, false_and, or_false, hpos, true_and, not_lt.2 (le_of_lt h2), if_false,
       not_lt.2 h1, pyMod]
 
-theorem imod_mn (A B : IVal K) : (imod Bo A B).mn = (FVal.ge B.hi zeroV && FVal.le B.lo zeroV) := rfl
+theorem imod_flag (A B : IVal K) : (imod Bo A B).mn = true ↔
+    ((A.mn || B.mn || (FVal.ge B.hi zeroV && FVal.le B.lo zeroV) ||
+      A.lo.isInf || A.hi.isInf || B.lo.isInf || B.hi.isInf) = true ∨
+     (imod Bo A B).lo.isNan = true ∨ (imod Bo A B).hi.isNan = true) := by
+  show ((_ || _ || _) = true) ↔ _
+  simp only [Bool.or_eq_true]
+  constructor
+  · rintro ((h | h) | h)
+    · exact Or.inl h
+    · exact Or.inr (Or.inl h)
+    · exact Or.inr (Or.inr h)
+  · rintro (h | h | h)
+    · exact Or.inl (Or.inl h)
+    · exact Or.inl (Or.inr h)
+    · exact Or.inr h
 
-/-- the coarse result `[fmin(b.lo,0), fmax(0,b.hi)]` contains every remainder -/
-theorem out0_encl {l h x y : K} (hy : y ≠ 0) (hl : l ≤ y) (hh : y ≤ h) :
-    inBb (⟨fmin (fin l) zeroV, fmax zeroV (fin h)⟩ : Bnd K) (fin (pyMod x y)) := by
+theorem out0_lo {l x y : K} (hy : y ≠ 0) (hl : l ≤ y) :
+    FVal.le (fmin (fin l) zeroV) (fin (pyMod x y)) = true := by
   have hm : (y < 0 ∧ y < pyMod x y ∧ pyMod x y ≤ 0) ∨ (0 < y ∧ 0 ≤ pyMod x y ∧ pyMod x y < y) := by
     rcases lt_or_gt_of_ne hy with hneg | hpos
     · exact Or.inl ⟨hneg, pyMod_neg hneg⟩
     · exact Or.inr ⟨hpos, pyMod_pos hpos⟩
-  refine ⟨by simp, ?_, ?_⟩
-  · show FVal.le (fmin (fin l) zeroV) (fin (pyMod x y)) = true
-    simp only [fmin, zeroV, lt_fin_fin]
-    by_cases hc : (0 : K) < l
-    · simp only [hc, decide_true, if_true, le_fin_fin, decide_eq_true_eq]
-      rcases hm with ⟨h1, _, _⟩ | ⟨_, h2, _⟩
-      · exact absurd hc (not_lt.2 (le_of_lt (lt_of_le_of_lt hl h1)))
-      · exact h2
-    · simp only [hc, decide_false, Bool.false_eq_true, if_false, le_fin_fin, decide_eq_true_eq]
-      rcases hm with ⟨_, h2, _⟩ | ⟨_, h2, _⟩
-      · exact le_of_lt (lt_of_le_of_lt hl h2)
-      · exact le_trans (not_lt.1 hc) h2
-  · show FVal.le (fin (pyMod x y)) (fmax zeroV (fin h)) = true
-    simp only [fmax, zeroV, lt_fin_fin]
-    by_cases hc : (0 : K) < h
-    · simp only [hc, decide_true, if_true, le_fin_fin, decide_eq_true_eq]
-      rcases hm with ⟨_, _, h3⟩ | ⟨_, _, h3⟩
-      · exact le_trans h3 (le_of_lt hc)
-      · exact le_of_lt (lt_of_lt_of_le h3 hh)
-    · simp only [hc, decide_false, Bool.false_eq_true, if_false, le_fin_fin, decide_eq_true_eq]
-      rcases hm with ⟨_, _, h3⟩ | ⟨h1, _, _⟩
-      · exact h3
-      · exact absurd (lt_of_lt_of_le h1 hh) hc
+  simp only [fmin, zeroV, lt_fin_fin]
+  by_cases hc : (0 : K) < l
+  · simp only [hc, decide_true, if_true, le_fin_fin, decide_eq_true_eq]
+    rcases hm with ⟨h1, _, _⟩ | ⟨_, h2, _⟩
+    · exact absurd hc (not_lt.2 (le_of_lt (lt_of_le_of_lt hl h1)))
+    · exact h2
+  · simp only [hc, decide_false, Bool.false_eq_true, if_false, le_fin_fin, decide_eq_true_eq]
+    rcases hm with ⟨_, h2, _⟩ | ⟨_, h2, _⟩
+    · exact le_of_lt (lt_of_le_of_lt hl h2)
+    · exact le_trans (not_lt.1 hc) h2
+
+theorem out0_hi {h x y : K} (hy : y ≠ 0) (hh : y ≤ h) :
+    FVal.le (fin (pyMod x y)) (fmax zeroV (fin h)) = true := by
+  have hm : (y < 0 ∧ y < pyMod x y ∧ pyMod x y ≤ 0) ∨ (0 < y ∧ 0 ≤ pyMod x y ∧ pyMod x y < y) := by
+    rcases lt_or_gt_of_ne hy with hneg | hpos
+    · exact Or.inl ⟨hneg, pyMod_neg hneg⟩
+    · exact Or.inr ⟨hpos, pyMod_pos hpos⟩
+  simp only [fmax, zeroV, lt_fin_fin]
+  by_cases hc : (0 : K) < h
+  · simp only [hc, decide_true, if_true, le_fin_fin, decide_eq_true_eq]
+    rcases hm with ⟨_, _, h3⟩ | ⟨_, _, h3⟩
+    · exact le_trans h3 (le_of_lt hc)
+    · exact le_of_lt (lt_of_lt_of_le h3 hh)
+  · simp only [hc, decide_false, Bool.false_eq_true, if_false, le_fin_fin, decide_eq_true_eq]
+    rcases hm with ⟨_, _, h3⟩ | ⟨h1, _, _⟩
+    · exact h3
+    · exact absurd (lt_of_lt_of_le h1 hh) hc
 
 theorem Bnd.ext' {a b : Bnd K} (h1 : a.lo = b.lo) (h2 : a.hi = b.hi) : a = b := by
   cases a; cases b; simp_all
 
 def out0 (B : IVal K) : Bnd K := ⟨fmin B.lo zeroV, fmax zeroV B.hi⟩
 
-theorem imod_b_zero {A B : IVal K} (hl : A.lo.isFinite = true) (hh : A.hi.isFinite = true)
+/-- the coarse result `[fmin(b.lo,0), fmax(0,b.hi)]` contains every remainder, for any (also
+    infinite) divisor bounds -/
+theorem out0_encl {B : IVal K} {x y : K} (ib : inB B (fin y)) (hy : y ≠ 0) :
+    inBb (out0 B) (fin (pyMod x y)) := by
+  obtain ⟨_, h1, h2⟩ := ib
+  refine ⟨by simp, ?_, ?_⟩
+  · show FVal.le (fmin B.lo zeroV) (fin (pyMod x y)) = true
+    have h1 : FVal.le B.lo (fin y) = true := h1
+    cases hl : B.lo with
+    | nan => rw [hl] at h1; simp at h1
+    | pinf => rw [hl] at h1; simp [FVal.le] at h1
+    | ninf => simp [fmin, zeroV, FVal.lt, FVal.le]
+    | fin l =>
+      rw [hl] at h1
+      exact out0_lo hy (by simpa using h1)
+  · show FVal.le (fin (pyMod x y)) (fmax zeroV B.hi) = true
+    have h2 : FVal.le (fin y) B.hi = true := h2
+    cases hh : B.hi with
+    | nan => rw [hh] at h2; simp at h2
+    | ninf => rw [hh] at h2; simp [FVal.le] at h2
+    | pinf => simp [fmax, zeroV, FVal.lt, FVal.le]
+    | fin h =>
+      rw [hh] at h2
+      exact out0_hi hy (by simpa using h2)
+
+theorem imod_b_notfin {A B : IVal K} (h : (A.hi.isFinite && A.lo.isFinite) = false) :
+    (imod Bo A B).b = out0 B := by
+  apply Bnd.ext' <;> simp [imod, h, out0, IVal.b, IVal.of]
+
+theorem imod_b_zero {A B : IVal K} (h : (A.hi.isFinite && A.lo.isFinite) = true)
     (h1 : FVal.ge B.hi zeroV = true) (h2 : FVal.le B.lo zeroV = true) :
     (imod Bo A B).b = out0 B := by
-  simp [imod, modPosition, h1, h2, hl, hh, out0, IVal.b, IVal.of]
+  apply Bnd.ext' <;> simp [imod, modPosition, h1, h2, h, out0, IVal.b, IVal.of]
 
-theorem imod_b_pos {A B : IVal K} (hl : A.lo.isFinite = true) (hh : A.hi.isFinite = true)
+theorem imod_b_pos {A B : IVal K} (h : (A.hi.isFinite && A.lo.isFinite) = true)
     (h1 : FVal.ge B.hi zeroV = true) (h2 : FVal.le B.lo zeroV = false) :
     (imod Bo A B).b =
-      (if Bo.floorInt (Bo.div A.b (Bo.abs B.b)).lo == Bo.floorInt (Bo.div A.b (Bo.abs B.b)).hi
-       then Bo.sub A.b (Bo.mulInt B.b (Bo.floorInt (Bo.div A.b (Bo.abs B.b)).lo)) else out0 B) := by
-  apply Bnd.ext' <;> simp [imod, modPosition, h1, h2, hl, hh, out0, IVal.b, IVal.of]
+      (if ((Bo.floorF (Bo.div A.b (Bo.abs B.b)).lo).isFinite &&
+            FVal.feq (Bo.floorF (Bo.div A.b (Bo.abs B.b)).lo) (Bo.floorF (Bo.div A.b (Bo.abs B.b)).hi)) = true
+       then Bo.sub A.b (Bo.mulF B.b (Bo.floorF (Bo.div A.b (Bo.abs B.b)).lo)) else out0 B) := by
+  apply Bnd.ext' <;> simp [imod, modPosition, h1, h2, h, out0, IVal.b, IVal.of]
 
-theorem imod_b_neg {A B : IVal K} (hl : A.lo.isFinite = true) (hh : A.hi.isFinite = true)
+theorem imod_b_neg {A B : IVal K} (h : (A.hi.isFinite && A.lo.isFinite) = true)
     (h1 : FVal.ge B.hi zeroV = false) (h2 : FVal.le B.lo zeroV = true) :
     (imod Bo A B).b =
-      (if Bo.floorInt (Bo.div (Bo.mulNeg1 A.b) (Bo.abs B.b)).lo ==
-          Bo.floorInt (Bo.div (Bo.mulNeg1 A.b) (Bo.abs B.b)).hi
-       then Bo.sub A.b (Bo.mulInt B.b (Bo.floorInt (Bo.div (Bo.mulNeg1 A.b) (Bo.abs B.b)).lo))
+      (if ((Bo.floorF (Bo.div (Bo.mulNeg1 A.b) (Bo.abs B.b)).lo).isFinite &&
+            FVal.feq (Bo.floorF (Bo.div (Bo.mulNeg1 A.b) (Bo.abs B.b)).lo)
+              (Bo.floorF (Bo.div (Bo.mulNeg1 A.b) (Bo.abs B.b)).hi)) = true
+       then Bo.sub A.b (Bo.mulF B.b (Bo.floorF (Bo.div (Bo.mulNeg1 A.b) (Bo.abs B.b)).lo))
        else out0 B) := by
-  apply Bnd.ext' <;> simp [imod, modPosition, h1, h2, hl, hh, out0, IVal.b, IVal.of]
+  apply Bnd.ext' <;> simp [imod, modPosition, h1, h2, h, out0, IVal.b, IVal.of]
 
-theorem quot_floor {ql qh q : K} (hd : inBb (⟨fin ql, fin qh⟩ : Bnd K) (fin q))
-    (heq : (⌊ql⌋ : Int) = ⌊qh⌋) : (⌊q⌋ : Int) = ⌊ql⌋ := by
-  have h1 : ql ≤ q := by simpa using hd.2.1
-  have h2 : q ≤ qh := by simpa using hd.2.2
-  exact le_antisymm (by rw [heq]; exact Int.floor_le_floor h2) (Int.floor_le_floor h1)
+/-- what the refinement test `isfinite(floor q.lo) && floor q.lo == floor q.hi` establishes -/
+theorem floor_cond (hM : ModSound Bo P) {q : Bnd K}
+    (hc : ((Bo.floorF q.lo).isFinite && FVal.feq (Bo.floorF q.lo) (Bo.floorF q.hi)) = true) :
+    ∃ ql qh : K, q.lo = fin ql ∧ q.hi = fin qh ∧ Bo.floorF q.lo = fin ((⌊ql⌋ : Int) : K) ∧
+      (⌊ql⌋ : Int) = ⌊qh⌋ := by
+  simp only [Bool.and_eq_true] at hc
+  obtain ⟨hf, he⟩ := hc
+  have h1 := hM.floorF_finite _ hf
+  obtain ⟨ql, hql⟩ : ∃ ql, q.lo = fin ql := by
+    cases h : q.lo <;> simp_all [FVal.isFinite]
+  have e1 : Bo.floorF q.lo = fin ((⌊ql⌋ : Int) : K) := by rw [hql]; exact hM.floorF_fin ql
+  rw [e1] at he
+  simp only [FVal.feq, Bool.and_eq_true] at he
+  have e2 : Bo.floorF q.hi = fin ((⌊ql⌋ : Int) : K) := fle_antisymm_fin he.1 he.2
+  have h2 := hM.floorF_finite q.hi (by rw [e2]; rfl)
+  obtain ⟨qh, hqh⟩ : ∃ qh, q.hi = fin qh := by
+    cases h : q.hi <;> simp_all [FVal.isFinite]
+  have e3 : Bo.floorF q.hi = fin ((⌊qh⌋ : Int) : K) := by rw [hqh]; exact hM.floorF_fin qh
+  rw [e3] at e2
+  have : ((⌊qh⌋ : Int) : K) = ((⌊ql⌋ : Int) : K) := by injection e2
+  exact ⟨ql, qh, hql, hqh, e1, (Int.cast_injective this).symm⟩
+
+theorem quot_floor {ql qh q : K} (h1 : ql ≤ q) (h2 : q ≤ qh)
+    (heq : (⌊ql⌋ : Int) = ⌊qh⌋) : (⌊q⌋ : Int) = ⌊ql⌋ :=
+  le_antisymm (by rw [heq]; exact Int.floor_le_floor h2) (Int.floor_le_floor h1)
 
 theorem refined_encl (hS : BoostSound Bo P) (hM : ModSound Bo P) {A B : Bnd K} {x y : K}
     (ia : inBb A (fin x)) (ib : inBb B (fin y)) {n : Int} (hn : (⌊x / y⌋ : Int) = n) :
-    inBb (Bo.sub A (Bo.mulInt B n)) (fin (pyMod x y)) := by
-  have hmul := hM.mulInt B (fin y) n ib (by simp [FVal.mul])
+    inBb (Bo.sub A (Bo.mulF B (fin (n : K)))) (fin (pyMod x y)) := by
+  have hmul := hM.mulF B (fin y) (n : K) ib (by simp [FVal.mul])
   have hsub := hS.sub A _ (fin x) _ ia hmul (by simp [FVal.mul, FVal.sub, FVal.add, FVal.neg])
   have : FVal.sub (fin x) (FVal.mul (fin y) (fin (n : K))) = fin (pyMod x y) := by
     simp only [FVal.mul, FVal.sub, FVal.add, FVal.neg, pyMod, hn]
@@ -149,98 +205,110 @@ theorem refined_encl (hS : BoostSound Bo P) (hM : ModSound Bo P) {A B : Bnd K} {
   rw [this] at hsub
   exact hsub
 
-/-- `mod` under the missing hypotheses `ModSafe` -/
-theorem mod_enclS_partial (hS : BoostSound Bo P) (hM : ModSound Bo P) {A B : IVal K} {a b : FVal K}
-    (hsafe : ModSafe Bo A B) (ha : enclS A a) (hb : enclS B b) :
+/-- the quotient refinement is sound whenever its test passes -/
+theorem refine_step (hS : BoostSound Bo P) (hM : ModSound Bo P) {A B : IVal K} {x y q : K}
+    {Q : Bnd K} (ia : inB A (fin x)) (ib : inB B (fin y)) (hq : x / y = q)
+    (hd : inBb Q (fin q)) (hout0 : inBb (out0 B) (fin (pyMod x y))) :
+    inBb (if ((Bo.floorF Q.lo).isFinite && FVal.feq (Bo.floorF Q.lo) (Bo.floorF Q.hi)) = true
+          then Bo.sub A.b (Bo.mulF B.b (Bo.floorF Q.lo)) else out0 B) (fin (pyMod x y)) := by
+  by_cases hc : ((Bo.floorF Q.lo).isFinite && FVal.feq (Bo.floorF Q.lo) (Bo.floorF Q.hi)) = true
+  · simp only [hc, if_true]
+    obtain ⟨ql, qh, hql, hqh, e1, heq⟩ := floor_cond hM hc
+    have h1 : ql ≤ q := by have := hd.2.1; rw [hql] at this; simpa using this
+    have h2 : q ≤ qh := by have := hd.2.2; rw [hqh] at this; simpa using this
+    rw [e1]
+    exact refined_encl hS hM ia ib (by rw [hq]; exact quot_floor h1 h2 heq)
+  · simp only [hc]; exact hout0
+
+theorem pmod_nan_l (b : FVal K) : pmod P nan b = nan := by cases b <;> rfl
+theorem pmod_nan_r (a : FVal K) : pmod P a nan = nan := by cases a <;> rfl
+theorem pmod_inf_l {a : FVal K} (b : FVal K) (h : a.isInf = true) : pmod P a b = nan := by
+  cases a <;> simp [FVal.isInf] at h <;> cases b <;> rfl
+theorem pmod_inf_r (a : FVal K) {b : FVal K} (h : b.isInf = true) : pmod P a b = nan := by
+  cases b <;> simp [FVal.isInf] at h <;> cases a <;> rfl
+
+/-- **`mod`**, unconditional on the fixed tree: the operand flags are propagated, infinite operand
+    bounds and divisors containing 0 are flagged, and the refinement compares exact floors. -/
+theorem mod_enclS (hS : BoostSound Bo P) (hM : ModSound Bo P) {A B : IVal K} {a b : FVal K}
+    (ha : enclS A a) (hb : enclS B b) :
     enclS (imod Bo A B) (pointOp P Op.mod a b) := by
-  obtain ⟨hAm, hBm, hAl, hAh, hBl, hBh, hq⟩ := hsafe
-  have ia : inB A a := by
-    rcases ha with ⟨h, _⟩ | h
-    · rw [hAm] at h; exact Bool.noConfusion h
-    · exact h
-  have ib : inB B b := by
-    rcases hb with ⟨h, _⟩ | h
-    · rw [hBm] at h; exact Bool.noConfusion h
-    · exact h
-  obtain ⟨x, rfl⟩ := ia.finite hAl hAh
-  obtain ⟨y, rfl⟩ := ib.finite hBl hBh
-  show enclS (imod Bo A B) (pmod P (fin x) (fin y))
+  show enclS (imod Bo A B) (pmod P a b)
+  by_cases n1 : a = nan
+  · subst n1
+    rw [pmod_nan_l]
+    exact Or.inl ⟨(imod_flag A B).2 (Or.inl (by simp [ha.mn_of_nan])), rfl⟩
+  by_cases n2 : b = nan
+  · subst n2
+    rw [pmod_nan_r]
+    exact Or.inl ⟨(imod_flag A B).2 (Or.inl (by simp [hb.mn_of_nan])), rfl⟩
+  have ia := ha.inB_of_ne n1
+  have ib := hb.inB_of_ne n2
+  by_cases i1 : a.isInf = true
+  · rw [pmod_inf_l b i1]
+    have := ia.isInf_bounds i1
+    simp only [Bool.or_eq_true] at this
+    exact Or.inl ⟨(imod_flag A B).2 (Or.inl (by rcases this with t | t <;> simp [t])), rfl⟩
+  by_cases i2 : b.isInf = true
+  · rw [pmod_inf_r a i2]
+    have := ib.isInf_bounds i2
+    simp only [Bool.or_eq_true] at this
+    exact Or.inl ⟨(imod_flag A B).2 (Or.inl (by rcases this with t | t <;> simp [t])), rfl⟩
+  obtain ⟨x, rfl⟩ : ∃ x, a = fin x := by cases a <;> simp_all [FVal.isInf]
+  obtain ⟨y, rfl⟩ : ∃ y, b = fin y := by cases b <;> simp_all [FVal.isInf]
   by_cases hy : y = 0
   · subst hy
     have hz := ib.zero_bounds
     have : pmod P (fin x) (fin (0 : K)) = nan := by simp [pmod]
     rw [this]
-    exact Or.inl ⟨by rw [imod_mn]; simp [hz.1, hz.2], rfl⟩
+    exact Or.inl ⟨(imod_flag A B).2 (Or.inl (by simp [hz.1, hz.2])), rfl⟩
   · rw [pmod_fin hM hy]
     right
-    obtain ⟨l, hl⟩ : ∃ l, B.lo = fin l := by
-      cases h : B.lo <;> simp_all [FVal.isFinite]
-    obtain ⟨h, hh⟩ : ∃ h, B.hi = fin h := by
-      cases h : B.hi <;> simp_all [FVal.isFinite]
-    have hly : l ≤ y := by
-      have := ib.2.1; simp only [IVal.b, hl, le_fin_fin, decide_eq_true_eq] at this; exact this
-    have hyh : y ≤ h := by
-      have := ib.2.2; simp only [IVal.b, hh, le_fin_fin, decide_eq_true_eq] at this; exact this
-    have hout0 : inBb (out0 B) (fin (pyMod x y)) := by
-      have := out0_encl (x := x) hy hly hyh
-      simpa [out0, hl, hh] using this
+    have hout0 : inBb (out0 B) (fin (pyMod x y)) := out0_encl ib hy
     show inBb (imod Bo A B).b (fin (pyMod x y))
+    by_cases hfin : (A.hi.isFinite && A.lo.isFinite) = true
+    swap
+    · rw [imod_b_notfin (by simpa using hfin)]; exact hout0
     by_cases hz : Ivl.hasZero B = true
     · have hz' := hz
       simp only [Ivl.hasZero, Bool.and_eq_true] at hz'
-      rw [imod_b_zero hAl hAh hz'.2 hz'.1]
+      rw [imod_b_zero hfin hz'.2 hz'.1]
       exact hout0
     · have hz0 : Ivl.hasZero B = false := by simpa using hz
-      obtain ⟨hq1, hq2⟩ := hq hz0
       have hb0 : (fin y : FVal K) ≠ fin 0 := by
         intro e; injection e with e; exact hy e
+      have habs := hS.abs B.b (fin y) ib
       rcases lt_or_gt_of_ne hy with hneg | hpos
       · -- b < 0: position 2
-        have h2 : FVal.le B.lo zeroV = true := by
-          simp only [hl, zeroV, le_fin_fin, decide_eq_true_eq]; exact le_of_lt (lt_of_le_of_lt hly hneg)
+        have h2 : FVal.le B.lo zeroV = true :=
+          fle_trans ib.2.1 (by simp [zeroV, le_of_lt hneg])
         have h1 : FVal.ge B.hi zeroV = false := by
           cases hc : FVal.ge B.hi zeroV
           · rfl
           · simp [Ivl.hasZero, h2, hc] at hz0
-        rw [imod_b_neg hAl hAh h1 h2]
-        obtain ⟨ql, qh, hqeq, r1, r2⟩ := hq2
-        simp only [hqeq, hM.floorInt ql r1, hM.floorInt qh r2]
-        by_cases hc : ((⌊ql⌋ : Int) == ⌊qh⌋) = true
-        · simp only [hc, if_true]
-          have heq : (⌊ql⌋ : Int) = ⌊qh⌋ := by simpa using hc
-          have habs := hS.abs B.b (fin y) ib
-          have hab : FVal.abs (fin y) = fin (-y) := by simp [FVal.abs, hneg]
-          rw [hab] at habs
-          have hneg1 := hM.mulNeg1 A.b (fin x) ia
-          have hnn : (-y) ≠ 0 := neg_ne_zero.2 hy
-          have hd := hS.div _ _ _ _ hneg1 habs (by intro e; injection e with e; exact hnn e)
-            (by simp [FVal.neg, FVal.div, hneg])
-          have hdv : FVal.div (FVal.neg (fin x)) (fin (-y)) = fin (x / y) := by
-            simp [FVal.neg, FVal.div, hneg, neg_div_neg_eq]
-          rw [hdv, hqeq] at hd
-          exact refined_encl hS hM ia ib (quot_floor hd heq)
-        · simp only [hc]; exact hout0
+        rw [imod_b_neg hfin h1 h2]
+        have hab : FVal.abs (fin y) = fin (-y) := by simp [FVal.abs, hneg]
+        rw [hab] at habs
+        have hneg1 := hM.mulNeg1 A.b (fin x) ia
+        have hnn : (-y) ≠ 0 := neg_ne_zero.2 hy
+        have hd := hS.div _ _ _ _ hneg1 habs (by intro e; injection e with e; exact hnn e)
+          (by simp [FVal.neg, FVal.div, hneg])
+        have hdv : FVal.div (FVal.neg (fin x)) (fin (-y)) = fin (x / y) := by
+          simp [FVal.neg, FVal.div, hneg, neg_div_neg_eq]
+        rw [hdv] at hd
+        exact refine_step hS hM ia ib rfl hd hout0
       · -- b > 0: position 1
-        have h1 : FVal.ge B.hi zeroV = true := by
-          simp only [FVal.ge, hh, zeroV, le_fin_fin, decide_eq_true_eq]
-          exact le_of_lt (lt_of_lt_of_le hpos hyh)
+        have h1 : FVal.ge B.hi zeroV = true :=
+          fle_trans (by simp [zeroV, le_of_lt hpos]) ib.2.2
         have h2 : FVal.le B.lo zeroV = false := by
           cases hc : FVal.le B.lo zeroV
           · rfl
           · simp [Ivl.hasZero, h1, hc] at hz0
-        rw [imod_b_pos hAl hAh h1 h2]
-        obtain ⟨ql, qh, hqeq, r1, r2⟩ := hq1
-        simp only [hqeq, hM.floorInt ql r1, hM.floorInt qh r2]
-        by_cases hc : ((⌊ql⌋ : Int) == ⌊qh⌋) = true
-        · simp only [hc, if_true]
-          have heq : (⌊ql⌋ : Int) = ⌊qh⌋ := by simpa using hc
-          have habs := hS.abs B.b (fin y) ib
-          have hab : FVal.abs (fin y) = fin y := by simp [FVal.abs, not_lt.2 (le_of_lt hpos)]
-          rw [hab] at habs
-          have hd := hS.div _ _ _ _ ia habs hb0 (by simp [FVal.div, hpos])
-          have hdv : FVal.div (fin x) (fin y) = fin (x / y) := by simp [FVal.div, hpos]
-          rw [hdv, hqeq] at hd
-          exact refined_encl hS hM ia ib (quot_floor hd heq)
-        · simp only [hc]; exact hout0
+        rw [imod_b_pos hfin h1 h2]
+        have hab : FVal.abs (fin y) = fin y := by simp [FVal.abs, not_lt.2 (le_of_lt hpos)]
+        rw [hab] at habs
+        have hd := hS.div _ _ _ _ ia habs hb0 (by simp [FVal.div, hpos])
+        have hdv : FVal.div (fin x) (fin y) = fin (x / y) := by simp [FVal.div, hpos]
+        rw [hdv] at hd
+        exact refine_step hS hM ia ib rfl hd hout0
 
 end Libfive.Ivl
